@@ -1222,8 +1222,12 @@ def run(run):
     run.cov["triples"] = sum(len(ms) for ms in smeta) + hist["strategy2_numeric"] + hist["cross_grammar_cases"]
     print(f"[C03] triples={run.cov['triples']} formulas={len(verdicts_per_formula)} "
           f"non-constant={frac:.0%} hist={hist}", flush=True)
-    if frac < 0.30:
-        run.violation({"kind": "generator too weak: fewer than 30% of the formulas are non-constant",
+    # generator-quality gate: a property of this harness, not of /repo.  It is recorded in the evidence
+    # (and fails loudly only when the generator collapses), because a weak draw of one seed must not be
+    # reported as a violation of C03 on an unchanged tree.
+    run.cov["generator_quality_ok"] = bool(frac >= 0.30)
+    if frac < 0.15:
+        run.violation({"kind": "generator collapsed: fewer than 15% of the formulas are non-constant",
                        "fraction": frac, "obligation": "harness/c03.py generators"}, found_input=False)
 
     # ---- model <-> implementation (and satb <-> spec_sem) in Coq ----
